@@ -125,11 +125,11 @@ def expectedClasses : List ClassDesc := [
     repr := [("listmetric_zeroTP_handling", .attr "listmetric_zeroTP_handling"), ("empty_list_std", .attr "empty_list_std")] },
   { name := "LabelGroup", bases := ["SupportsConfig"], inherits := none,
     params := ["value_labels", "single_instance"], noneDefault := [],
-    stores := [("value_labels", .param "value_labels" (.other "if isinstance(value_labels, int): [value_labels];sorted(set(value_labels))")), ("single_instance", .param "single_instance" .id)],
+    stores := [("value_labels", .param "value_labels" (.other "sorted(set([value_labels] if isinstance(value_labels, int) else value_labels))")), ("single_instance", .param "single_instance" .id)],
     repr := [("value_labels", .attr "value_labels"), ("single_instance", .attr "single_instance")] },
   { name := "LabelMergeGroup", bases := ["LabelGroup"], inherits := some "super().__init__(value_labels, single_instance)",
     params := ["value_labels", "single_instance"], noneDefault := [],
-    stores := [("value_labels", .param "value_labels" (.other "if isinstance(value_labels, int): [value_labels];sorted(set(value_labels))")), ("single_instance", .param "single_instance" .id)],
+    stores := [("value_labels", .param "value_labels" (.other "sorted(set([value_labels] if isinstance(value_labels, int) else value_labels))")), ("single_instance", .param "single_instance" .id)],
     repr := [("value_labels", .attr "value_labels"), ("single_instance", .attr "single_instance")] },
   { name := "_LabelGroupAny", bases := ["LabelGroup"], inherits := none,
     params := [], noneDefault := [],
